@@ -41,8 +41,11 @@ func init() {
 			"with MaxTrials lowered (documented public knob) the comparison conditions on a password being returned",
 		},
 		MinEvals: 1000,
-		NumCases: func(tier string, seed uint64) int { a, b := c06Counts(tier); return a + b + len(c06EmptyWordPanel) },
-		RunCase:  c06Case,
+		NumCases: func(tier string, seed uint64) int {
+			a, b := c06Counts(tier)
+			return a + b + len(c06EmptyWordPanel) + c06BoundCases(tier)
+		},
+		RunCase: c06Case,
 	})
 }
 
@@ -109,8 +112,97 @@ func c06Judge(c *Ctx, name string, suffix string, res *explore.Result, E float32
 	}
 }
 
+func c06BoundCases(tier string) int {
+	if tier == "thorough" {
+		return 400
+	}
+	return 40
+}
+
+// c06Bound: recipes far beyond any tree. Whatever the distribution of the generator, it is spread over at most
+// as many outcomes as the recipe admits, so its most likely password has probability at least 1/N and its
+// min-entropy is at most log2 N: a reported entropy above log2 of the exact number of admissible outcomes
+// overstates, without a single generation.
+func c06Bound(c *Ctx) {
+	for k := 0; k < 24; k++ {
+		if k%3 != 2 {
+			rec := anyCharRecipe(c.R, 40)
+			if k%6 == 0 {
+				rec = reqPatternRecipe(c.R, c.R.Range(1, 4))
+				rec.Length = c.R.Range(1, 40)
+			}
+			if c.R.Chance(1, 3) { // counts at and beyond the float64 range
+				rec.Length = []int{100, 171, 172, 173, 200, 256, 400, 1000}[c.R.Intn(8)]
+			}
+			if nReqSets(rec) > 6 {
+				continue
+			}
+			sem := oracle.CharSemOf(rec)
+			N := sem.Count(rec.Length)
+			if N.Sign() <= 0 || rec.Length < 1 {
+				continue
+			}
+			E := float64(rec.Entropy())
+			c.Exec(1)
+			c.Count("support_size_bounds_checked", 1)
+			bound := oracle.Log2Big(N)
+			if len(sem.ReqLive) > 0 {
+				c.Distinct("nontrivial", "bound|"+descChar(rec).String())
+			}
+			if E > bound+4*oracle.Ulp32(bound)+1e-6 || math.IsNaN(E) {
+				c.Violate("overstated:more-bits-than-admissible-passwords", fmt.Sprintf("recipe %s reports %v bits, but only %s strings (log2 = %.6f) satisfy it: some password is likelier than 2^-Entropy whatever the generator does", descChar(rec), E, abbreviate(N.String()), bound),
+					map[string]interface{}{"recipe": descChar(rec), "reported": fmt.Sprint(E), "log2_admissible": bound})
+				return
+			}
+			continue
+		}
+		w := genWLCase(c.R, wlOpts{minWords: 1, maxWords: 12, maxLen: 12, twins: true, uncap: true, noReqSep: true})
+		if c.R.Chance(1, 4) {
+			w.Length = c.R.Range(30, 400)
+		}
+		w.UserEnt = 0
+		b, err := w.Build()
+		if err != nil || hasEmpty(b.Kept) || !oracle.PremiseHolds(b.Kept) {
+			continue
+		}
+		L, size := w.Length, len(b.Kept)
+		bound := float64(L) * math.Log2(float64(size))
+		switch w.Scheme {
+		case "random":
+			bound += float64(L)
+		case "one":
+			bound += math.Log2(float64(L))
+		}
+		sepOutcomes := 1.0
+		switch w.SepKind {
+		case "preset":
+			if r, ok := presetRecipe(w.Preset); ok {
+				sepOutcomes = math.Pow(float64(len(oracle.CharSemOf(r).Alphabet)), float64(r.Length))
+			}
+		case "constructed":
+			sem := oracle.CharSemOf(w.sepRec)
+			n, _ := new(big.Float).SetInt(sem.Count(w.sepRec.Length)).Float64()
+			sepOutcomes = n + 1 // and the empty separator of a failed generation
+		}
+		bound += float64(L-1) * math.Log2(sepOutcomes)
+		E := float64(b.Rec.Entropy())
+		c.Exec(1)
+		c.Count("support_size_bounds_checked", 1)
+		c.Distinct("nontrivial", "bound|"+w.String())
+		if E > bound+8*oracle.Ulp32(bound)+1e-5 || math.IsNaN(E) {
+			c.Violate("overstated:more-bits-than-admissible-passwords", fmt.Sprintf("recipe %s reports %v bits, but the passwords it admits number at most 2^%.6f", w.String(), E, bound),
+				map[string]interface{}{"recipe": w.String(), "reported": fmt.Sprint(E), "log2_admissible_at_most": bound})
+			return
+		}
+	}
+}
+
 func c06Case(c *Ctx) {
 	charTrees, wlTrees := c06Counts(c.Tier)
+	if c.Case >= charTrees+wlTrees+len(c06EmptyWordPanel) {
+		c06Bound(c)
+		return
+	}
 	switch {
 	case c.Case < charTrees:
 		tc := charTreeCaseFor(c.Tier, c.Seed, c.Case)
